@@ -6,6 +6,8 @@ import RelicVerif.Spec.Mac
 import RelicVerif.Spec.Aes
 import RelicVerif.Model.Md
 import RelicVerif.Model.Bc
+import RelicVerif.Model.ShaStream
+import RelicVerif.Model.Blake2s
 
 namespace Driver.C14
 open Driver Driver.C15 Relic.Spec Relic.Model
@@ -20,9 +22,9 @@ def optBytes : Option (List UInt8) → String
 def streamOf (alg : String) : Option Md.Stream :=
   match alg with
   | "sh256" => some Md.sha256Stream
-  | "sh224" => some { run := fun cs => some (Sha256.sha224 cs.flatten), outLen := 28, blockLen := 64 }
-  | "sh384" => some { run := fun cs => some (Sha512.sha384 cs.flatten), outLen := 48, blockLen := 128 }
-  | "sh512" => some { run := fun cs => some (Sha512.sha512 cs.flatten), outLen := 64, blockLen := 128 }
+  | "sh224" => some Md.sha224Stream
+  | "sh384" => some Md.sha384Stream
+  | "sh512" => some Md.sha512Stream
   | _ => none
 
 def hashOf (alg : String) : Option Mac.Hash :=
@@ -38,14 +40,113 @@ def hashOf (alg : String) : Option Mac.Hash :=
 def aesE (key : List UInt8) : List UInt8 → List UInt8 := Aes.cipher (Aes.keyExpansion key)
 def aesD (key : List UInt8) : List UInt8 → List UInt8 := Aes.invCipher (Aes.keyExpansion key)
 
+/-- tokens of md_stream / b2s_stream: a chunk, or `=` = a Result / final call in between -/
+def parseToks : List String → Option (List (Option (List UInt8)))
+  | [] => some []
+  | t :: ts => do
+    let r ← parseToks ts
+    if t == "=" then some (none :: r) else do
+      let b ← parseBytes t
+      some (some b :: r)
+
+def shaToks {W : Type} (P : ShaStream.Params W) (toks : List (Option (List UInt8))) : Option (List UInt8) :=
+  ShaStream.result P (toks.foldl (fun c t =>
+    match t with
+    | none => ShaStream.finish P c
+    | some b => ShaStream.input P c b) (ShaStream.reset P))
+
+/-- branch labels of the streaming SHA model for a token list (block size bs, length field lb) -/
+def shaTags (bs lb : Nat) (toks : List (Option (List UInt8))) : List String :=
+  let chunks := toks.filterMap id
+  let n := chunks.flatten.length
+  let fin := toks.any Option.isNone
+  [if n % bs ≥ bs - lb then "sha-pad-extra-block" else "sha-pad-same-block",
+   if n % bs = 0 then "sha-len-multiple-of-block" else "sha-len-partial-block",
+   if chunks.length > 1 then "sha-multi-chunk" else "sha-single-chunk"] ++
+  (if chunks.any List.isEmpty then ["sha-empty-chunk"] else []) ++
+  (if chunks.any (fun c => c.length > bs) then ["sha-chunk-longer-than-block"] else []) ++
+  (if fin then ["sha-result-then-more-calls"] else [])
+
+def b2sToks (S : Blake2s.State) (toks : List (Option (List UInt8))) (outlen : Nat) : Option (List UInt8) :=
+  Blake2s.final (toks.foldl (fun S t =>
+    match t with
+    | none => (match Blake2s.final S outlen with | some _ => Blake2s.finalState S | none => S)
+    | some b => Blake2s.update S b) S) outlen
+
+def b2sTags (kl : Nat) (toks : List (Option (List UInt8))) : List String :=
+  let chunks := toks.filterMap id
+  let n := chunks.flatten.length + (if kl > 0 then 64 else 0)
+  [if n = 0 then "b2s-empty" else if n % 64 = 0 then "b2s-last-block-full" else "b2s-last-block-partial",
+   if kl > 0 then "b2s-keyed" else "b2s-unkeyed",
+   if chunks.length > 1 then "b2s-multi-chunk" else "b2s-single-chunk"] ++
+  (if chunks.any (fun c => c.length > 128) then ["b2s-direct-blocks-from-input"] else []) ++
+  (if chunks.any List.isEmpty then ["b2s-empty-chunk"] else []) ++
+  (if toks.any Option.isNone then ["b2s-final-then-more-calls"] else [])
+
 def handle (op : String) (args : List String) : Option Verdict :=
   match op, args with
   | "md_map", [alg, m] => do
     let b ← parseBytes m
     let H ← hashOf alg
-    -- model: sha256 goes through the streaming model; the others are one-shot
-    let mdl := if alg == "sh256" then optBytes (Sha256.mdMap b) else fmtBytes (H.h b)
-    some { model := mdl, spec := [fmtBytes (H.h b)] }
+    -- model: every SHA goes through the streaming model of its C file (one Input call), BLAKE2s through the model of blake2s()
+    let mdl :=
+      match alg with
+      | "sh256" => optBytes (Sha256.mdMap b)
+      | "sh224" => optBytes (ShaStream.run ShaStream.sha224P [b])
+      | "sh384" => optBytes (ShaStream.run ShaStream.sha384P [b])
+      | "sh512" => optBytes (ShaStream.run ShaStream.sha512P [b])
+      | "b2s160" => optBytes (Blake2s.blake2s 20 b [])
+      | "b2s256" => optBytes (Blake2s.blake2s 32 b [])
+      | _ => "unknown-alg"
+    let tags := if alg.startsWith "sh" then shaTags H.blockLen (H.blockLen / 8) [some b] else b2sTags 0 [some b]
+    some { model := mdl, spec := [fmtBytes (H.h b)], tags := tags }
+  | "md_stream", alg :: toks => do
+    let ts ← parseToks toks
+    let H ← hashOf alg
+    let mdl ←
+      match alg with
+      | "sh256" => some (optBytes (shaToks ShaStream.sha256P ts))
+      | "sh224" => some (optBytes (shaToks ShaStream.sha224P ts))
+      | "sh384" => some (optBytes (shaToks ShaStream.sha384P ts))
+      | "sh512" => some (optBytes (shaToks ShaStream.sha512P ts))
+      | _ => none
+    -- spec: the digest of everything fed; feeding data after a Result call is an error of the API
+    let afterFin := (ts.dropWhile Option.isSome).filterMap id
+    let spec := if afterFin.any (fun c => !c.isEmpty) then "err" else fmtBytes (H.h (ts.filterMap id).flatten)
+    some { model := mdl, spec := [spec], tags := shaTags H.blockLen (H.blockLen / 8) ts }
+  | "b2s_stream", ol :: k :: toks => do
+    let ol ← ol.toNat?
+    let k ← parseBytes k
+    let ts ← parseToks toks
+    let S := if k.length > 0 then Blake2s.initKey ol k else Blake2s.init ol
+    let mdl := match S with
+      | none => "err"
+      | some S => optBytes (b2sToks S ts ol)
+    -- spec: RFC 7693 for 1 ≤ nn ≤ 32, kk ≤ 32; any call after final is an error of the API
+    let ok := 1 ≤ ol ∧ ol ≤ 32 ∧ k.length ≤ 32 ∧ ¬ ts.any Option.isNone
+    some { model := mdl, spec := [if ok then fmtBytes (Blake2s.blake2sK ol k (ts.filterMap id).flatten) else "err"],
+           tags := b2sTags k.length ts }
+  | "b2s_ctr", ol :: t0 :: t1 :: toks => do
+    let ol ← ol.toNat?
+    let t0 ← parseHexNat t0
+    let t1 ← parseHexNat t1
+    let cs ← toks.mapM parseBytes
+    let S ← Blake2s.init ol
+    let S := { S with t0 := UInt32.ofNat t0, t1 := UInt32.ofNat t1 }
+    let m := cs.flatten
+    -- spec: the processing loop of RFC 7693 §3.3 continued from the byte counter t = t0 + 2^32·t1
+    let T := t0 % 2 ^ 32 + 2 ^ 32 * (t1 % 2 ^ 32)
+    let carry := (t0 % 2 ^ 32 + m.length ≥ 2 ^ 32)
+    some { model := optBytes (Blake2s.final (cs.foldl Blake2s.update S) ol),
+           spec := [fmtBytes (Blake2s.outBytes (Blake2s.loop (Blake2s.initH 0 ol) T (m.length / 64 + 2) m) ol)],
+           tags := [if carry then "b2s-counter-carry" else "b2s-counter-no-carry"] }
+  | "b2s", [ol, k, m] => do
+    let ol ← ol.toNat?
+    let k ← parseBytes k
+    let m ← parseBytes m
+    let ok := 1 ≤ ol ∧ ol ≤ 32 ∧ k.length ≤ 32
+    some { model := optBytes (Blake2s.blake2s ol m k),
+           spec := [if ok then fmtBytes (Blake2s.blake2sK ol k m) else "err"], tags := b2sTags k.length [some m] }
   | "md_hmac", [k, m] => do
     let k ← parseBytes k
     let m ← parseBytes m
